@@ -780,3 +780,43 @@ package stack
 //@   modifies nothing
 //@   ensures [hasSrcPrefixIsExists C06 C18] result <==> exists k string :: dom(s, k) && SrcPrefix(p, k)
 //@   loop 0: invariant forall k string :: visited[k] ==> !SrcPrefix(p, k)
+
+// ---- stack.go: Call.updateLocations (C06, C18) ----------------------------------
+//@ pred UnderSrc(p string, k string) = len(p) >= len(k) + 5 && p[:len(k)+5] == k + "/src/"
+//@ pred UnderMod(p string, k string) = len(p) >= len(k) + 9 && p[:len(k)+9] == k + "/pkg/mod/"
+//@ pred UnderDir(p string, k string) = len(p) >= len(k) + 1 && p[:len(k)+1] == k + "/"
+//@ pred UnderGopath(p string, k string) = UnderSrc(p, k) || UnderMod(p, k)
+//@ pred GopathRoot(p string, m map[string]string, k string) = dom(m, k) && UnderGopath(p, k) && (forall k2 string :: dom(m, k2) && UnderGopath(p, k2) ==> len(k2) <= len(k))
+//@ pred ModRoot(p string, m map[string]string, k string) = dom(m, k) && UnderDir(p, k) && (forall k2 string :: dom(m, k2) && UnderDir(p, k2) ==> len(k2) <= len(k))
+//@ pred ImportOf(rel string, before string, after string) = lastIndexByte(rel, 47) != -1 ? after == rel[:lastIndexByte(rel, 47)] : after == before
+
+//@ lemma [C06] longestGopathRootUnique(p string, k1 string, k2 string)
+//@   requires UnderGopath(p, k1) && UnderGopath(p, k2) && len(k1) == len(k2)
+//@   ensures k1 == k2
+//@ lemma [C06] longestModRootUnique(p string, k1 string, k2 string)
+//@   requires UnderDir(p, k1) && UnderDir(p, k2) && len(k1) == len(k2)
+//@   ensures k1 == k2
+
+//@ func pathJoin
+//@   modifies nothing
+//@   ensures [pathJoin2 C18] len(s) == 2 ==> result == s[0] + "/" + s[1]
+//@   ensures [pathJoin3 C18] len(s) == 3 ==> result == s[0] + "/" + s[1] + "/" + s[2]
+
+//@ func (*Call).updateLocations
+//@   option det=several roots can match; the longest one wins, two matching roots of the same length are the same root (lemmas longestGopathRootUnique, longestModRootUnique), and every written field is a function of that root
+//@   requires c != nil
+//@   modifies Call.RelSrcPath, Call.LocalSrcPath, Call.ImportPath, Call.Location at c
+//@   ensures [emptyPathUnknown C18] c.RemoteSrcPath == "" ==> !result
+//@   ensures [matchedIffUnderSomeRoot C06 C18] result <==> c.RemoteSrcPath != "" && ((goroot != "" && UnderSrc(c.RemoteSrcPath, goroot)) || (exists k string :: dom(gopaths, k) && UnderGopath(c.RemoteSrcPath, k)) || (exists k string :: dom(localgomods, k) && UnderDir(c.RemoteSrcPath, k)))
+//@   ensures [unmatchedStaysUnknown C18] !result ==> c.RelSrcPath == old(c.RelSrcPath) && c.LocalSrcPath == old(c.LocalSrcPath) && c.ImportPath == old(c.ImportPath) && c.Location == old(c.Location)
+//@   ensures [locationOnlyRefined C18] old(c.Location) != LocationUnknown ==> c.Location == old(c.Location)
+//@   ensures [gorootFirst C06 C18] c.RemoteSrcPath != "" && goroot != "" && UnderSrc(c.RemoteSrcPath, goroot) ==> c.RelSrcPath == c.RemoteSrcPath[len(goroot)+5:] && c.LocalSrcPath == localgoroot + "/" + "src" + "/" + c.RelSrcPath && ImportOf(c.RelSrcPath, old(c.ImportPath), c.ImportPath) && (old(c.Location) == LocationUnknown ==> c.Location == Stdlib)
+//@   ensures [gopathLongestRootWins C06 C18] c.RemoteSrcPath != "" && !(goroot != "" && UnderSrc(c.RemoteSrcPath, goroot)) && (exists k string :: dom(gopaths, k) && UnderGopath(c.RemoteSrcPath, k)) ==> exists k string :: GopathRoot(c.RemoteSrcPath, gopaths, k) && ImportOf(c.RelSrcPath, old(c.ImportPath), c.ImportPath) && (UnderSrc(c.RemoteSrcPath, k) ? (c.RelSrcPath == c.RemoteSrcPath[len(k)+5:] && c.LocalSrcPath == gopaths[k] + "/" + "src" + "/" + c.RelSrcPath && (old(c.Location) == LocationUnknown ==> c.Location == GOPATH)) : (c.RelSrcPath == c.RemoteSrcPath[len(k)+9:] && c.LocalSrcPath == gopaths[k] + "/" + "pkg/mod" + "/" + c.RelSrcPath && (old(c.Location) == LocationUnknown ==> c.Location == GoPkg)))
+//@   ensures [innermostModuleWins C06 C18] c.RemoteSrcPath != "" && !(goroot != "" && UnderSrc(c.RemoteSrcPath, goroot)) && !(exists k string :: dom(gopaths, k) && UnderGopath(c.RemoteSrcPath, k)) && (exists k string :: dom(localgomods, k) && UnderDir(c.RemoteSrcPath, k)) ==> exists k string :: ModRoot(c.RemoteSrcPath, localgomods, k) && c.RelSrcPath == c.RemoteSrcPath[len(k)+1:] && c.LocalSrcPath == c.RemoteSrcPath && (lastIndexByte(c.RelSrcPath, 47) != -1 ? c.ImportPath == localgomods[k] + "/" + c.RelSrcPath[:lastIndexByte(c.RelSrcPath, 47)] : c.ImportPath == localgomods[k]) && (old(c.Location) == LocationUnknown ==> c.Location == GoMod)
+//@   loop 0: invariant c.RelSrcPath == old(c.RelSrcPath) && c.LocalSrcPath == old(c.LocalSrcPath) && c.ImportPath == old(c.ImportPath) && c.Location == old(c.Location)
+//@   loop 0: invariant rootDir == "" ==> forall k string :: visited[k] ==> !UnderGopath(c.RemoteSrcPath, k)
+//@   loop 0: invariant rootDir != "" ==> dom(gopaths, root) && rootDest == gopaths[root] && ((rootDir == "src" && UnderSrc(c.RemoteSrcPath, root)) || (rootDir == "pkg/mod" && UnderMod(c.RemoteSrcPath, root))) && (forall k string :: visited[k] && UnderGopath(c.RemoteSrcPath, k) ==> len(k) <= len(root))
+//@   loop 1: invariant c.RelSrcPath == old(c.RelSrcPath) && c.LocalSrcPath == old(c.LocalSrcPath) && c.ImportPath == old(c.ImportPath) && c.Location == old(c.Location)
+//@   loop 1: invariant forall k string :: dom(gopaths, k) ==> !UnderGopath(c.RemoteSrcPath, k)
+//@   loop 1: invariant !found ==> forall k string :: visited[k] ==> !UnderDir(c.RemoteSrcPath, k)
+//@   loop 1: invariant found ==> dom(localgomods, mod) && modPkg == localgomods[mod] && UnderDir(c.RemoteSrcPath, mod) && (forall k string :: visited[k] && UnderDir(c.RemoteSrcPath, k) ==> len(k) <= len(mod))
